@@ -15,12 +15,14 @@ import (
 
 	abci "github.com/tendermint/tendermint/abci/types"
 	cfg "github.com/tendermint/tendermint/config"
+	"github.com/tendermint/tendermint/crypto"
 	"github.com/tendermint/tendermint/crypto/ed25519"
 	"github.com/tendermint/tendermint/internal/verif/vos"
 	"github.com/tendermint/tendermint/libs/log"
 	mempl "github.com/tendermint/tendermint/mempool"
 	mempoolv0 "github.com/tendermint/tendermint/mempool/v0"
 	"github.com/tendermint/tendermint/privval"
+	tmproto "github.com/tendermint/tendermint/proto/tendermint/types"
 	"github.com/tendermint/tendermint/proxy"
 	sm "github.com/tendermint/tendermint/state"
 	"github.com/tendermint/tendermint/store"
@@ -182,6 +184,40 @@ type rtSigned struct {
 	TS    int64  `json:"ts"`
 }
 
+type rtPV struct {
+	inner *privval.FilePV
+	env   *rtEnv
+	inc   int
+}
+
+func (p *rtPV) GetPubKey() (crypto.PubKey, error) { return p.inner.GetPubKey() }
+
+func (p *rtPV) SignVote(chainID string, v *tmproto.Vote) error {
+	if err := p.inner.SignVote(chainID, v); err != nil {
+		return err
+	}
+	step := int8(2)
+	if v.Type == tmproto.PrecommitType {
+		step = 3
+	}
+	p.env.smtx.Lock()
+	p.env.Signed = append(p.env.Signed, rtSigned{Inc: p.inc, Kind: "vote", H: v.Height, R: v.Round, Step: step,
+		Block: fmt.Sprintf("%X", v.BlockID.Hash), Sig: fmt.Sprintf("%X", v.Signature), TS: v.Timestamp.UnixNano()})
+	p.env.smtx.Unlock()
+	return nil
+}
+
+func (p *rtPV) SignProposal(chainID string, pr *tmproto.Proposal) error {
+	if err := p.inner.SignProposal(chainID, pr); err != nil {
+		return err
+	}
+	p.env.smtx.Lock()
+	p.env.Signed = append(p.env.Signed, rtSigned{Inc: p.inc, Kind: "proposal", H: pr.Height, R: pr.Round, Step: 1,
+		Block: fmt.Sprintf("%X/pol%d", pr.BlockID.Hash, pr.PolRound), Sig: fmt.Sprintf("%X", pr.Signature), TS: pr.Timestamp.UnixNano()})
+	p.env.smtx.Unlock()
+	return nil
+}
+
 // ---- the node ---------------------------------------------------------------------------------------
 
 type rtConfig struct {
@@ -189,9 +225,12 @@ type rtConfig struct {
 	Powers     []int64 // genesis powers (node first)
 	UseMempool bool
 	AppScript  func(h int64) ([]abci.ValidatorUpdate, *abci.ConsensusParams, int64)
+	KeySeed    string // varies the validator keys (and with them the proposer order)
 }
 
 type rtEnv struct {
+	smtx    sync.Mutex
+	Signed  []rtSigned // every signature the node's key released, across incarnations
 	conf    rtConfig
 	genDoc  *types.GenesisDoc
 	keys    []ed25519.PrivKey // key 0 is the node's
@@ -203,7 +242,7 @@ func newRtEnv(c rtConfig) *rtEnv {
 	dsPinClock()
 	e := &rtEnv{conf: c, chainID: "rt-chain"}
 	for i := 0; i < c.NVals; i++ {
-		e.keys = append(e.keys, ed25519.GenPrivKeyFromSecret([]byte(fmt.Sprintf("rt-val-%d", i))))
+		e.keys = append(e.keys, ed25519.GenPrivKeyFromSecret([]byte(fmt.Sprintf("rt-val-%s-%d", c.KeySeed, i))))
 	}
 	var gv []types.GenesisValidator
 	for i, k := range e.keys {
@@ -275,6 +314,7 @@ func (e *rtEnv) prepare(w *vos.World) {
 	}
 	pv := privval.NewFilePV(e.keys[0], config.PrivValidatorKeyFile(), config.PrivValidatorStateFile())
 	pv.Save()
+	w.SyncAll() // initialisation happened long ago: it is durable
 }
 
 // boot performs the node's start-up on whatever the world contains: stores, handshake with the app,
@@ -284,6 +324,7 @@ func (e *rtEnv) boot(w *vos.World, inc int) (*rtNode, error) {
 	e.app.mtx.Lock()
 	e.app.world, e.app.inc = w, inc
 	e.app.mtx.Unlock()
+	dsSetClock(dsGenesisTime.Add(time.Hour + time.Duration(inc)*time.Second)) // every incarnation sees a later wall clock
 	err := rtGuard(func() error {
 		config := e.config(w)
 		n.bstore = store.NewBlockStore(w.DB("blockstore"))
@@ -320,7 +361,7 @@ func (e *rtEnv) boot(w *vos.World, inc int) (*rtNode, error) {
 		if dsDebug {
 			cs.SetLogger(log.TestingLogger().With("inc", inc))
 		}
-		cs.SetPrivValidator(n.pv)
+		cs.SetPrivValidator(&rtPV{inner: n.pv, env: e, inc: inc})
 		cs.SetEventBus(dsStoppedBus)
 		cs.SetTimeoutTicker(n.ticker)
 		n.cs = cs
